@@ -300,14 +300,15 @@ struct NameCase {
     filler: usize,
 }
 
-const NAMES: [&str; 10] = ["s", "S", "s_", "ss", "s1", "facts", "t", "st", "s2", "x"];
+const NAMES: [&str; 14] = ["s", "S", "s_", "ss", "s1", "facts", "t", "st", "s2", "x", "key", "val", "starts", "ends"];
 
 fn random_names(bytes: &[u8]) -> NameCase {
     let mut d = Dec::new(bytes);
     let ns = d.below(5);
     let nf = d.below(5);
     let symbols = (0..ns).map(|_| d.pick(&NAMES).to_string()).collect();
-    let functions = (0..nf).map(|_| d.pick(&NAMES).to_string()).collect();
+    // (the last four names are reserved words: fine for symbols, refused for functions)
+    let functions = (0..nf).map(|_| d.pick(&NAMES[..10]).to_string()).collect();
     let nl = 1 + d.below(6);
     let lookups = (0..nl).map(|_| (d.bool(), d.pick(&NAMES).to_string())).collect();
     let nr = d.below(3);
@@ -469,6 +470,63 @@ pub fn run(ctx: &Ctx) {
             check_path(&c)
         },
         |bytes| random_path(bytes).to_json(),
+        "path",
+    );
+
+    // long paths (1..=14 steps) over deep, self-similar data: a linked chain of maps/lists whose every level carries a
+    // unique value, so that a step applied twice or skipped yields data from a different path
+    let chain = |depth: usize, list_every: usize| -> Value {
+        let mut cur = Value::Map([("val".to_string(), Value::String(format!("leaf#{depth}")))].into_iter().collect());
+        for level in (0..depth).rev() {
+            let mut m = std::collections::BTreeMap::new();
+            m.insert("val".to_string(), Value::String(format!("leaf#{level}")));
+            if list_every > 0 && level % list_every == 0 {
+                m.insert("next".to_string(), Value::Vec(vec![Value::String(format!("pad#{level}")), cur]));
+            } else {
+                m.insert("next".to_string(), cur);
+            }
+            cur = Value::Map(m);
+        }
+        cur
+    };
+    let mut long_cases: Vec<PathCase> = vec![];
+    for list_every in [0usize, 2, 3] {
+        let input = chain(16, list_every);
+        for steps in 1..=14usize {
+            for end_with_val in [true, false] {
+                // follow the chain
+                let mut path = vec![];
+                let mut level = 0usize;
+                while path.len() + (end_with_val as usize) < steps {
+                    path.push(Step::Field("next".into()));
+                    if list_every > 0 && level % list_every == 0 && path.len() + (end_with_val as usize) < steps {
+                        path.push(Step::At(1));
+                    } else if list_every > 0 && level % list_every == 0 {
+                        break;
+                    }
+                    level += 1;
+                }
+                if end_with_val {
+                    path.push(Step::Field("val".into()));
+                }
+                long_cases.push(PathCase { input: input.clone(), root: None, steps: path.clone() });
+                long_cases.push(PathCase { input: Value::Map([("list".to_string(), input.clone())].into_iter().collect()), root: Some("list".into()), steps: path });
+            }
+        }
+    }
+    ctx.enumerate(
+        "long-paths",
+        long_cases.len() as u64,
+        true,
+        |i, acc| {
+            let c = &long_cases[i as usize];
+            acc.cell("path:long", c.steps.len() >= 2);
+            if i % 17 == 0 {
+                acc.sample("path:long", || format!("{} steps: {}", c.steps.len(), show_expr(&c.expr())));
+            }
+            check_path(c)
+        },
+        |i| long_cases[i as usize].to_json(),
         "path",
     );
 
